@@ -408,6 +408,7 @@ def main(argv=None):
     what = {e["match"]: e["what"] for e in opened if e["property"] == check.ID}
     unknown = 0
     replayed = 0
+    confirmed = False
     for (sig, name), b in sorted(acc.buckets.items(), key=lambda kv: (kv[0][1] or "", kv[0][0])):
         if name is not None:
             continue
@@ -432,7 +433,7 @@ def main(argv=None):
             continue
         print("  [%s] %d instance(s); first: %s" % (sig, b["count"], ex["msg"][:600]))
         print("VIOLATION property=%s replay=%s" % (check.ID, path))
-        status = 1                     # a confirmed, replayed violation decides the exit status
+        confirmed = True               # a confirmed, replayed violation decides the exit status
     seen_known = collections.Counter()
     for (sig, name), b in acc.buckets.items():
         if name is not None:
@@ -440,6 +441,8 @@ def main(argv=None):
     for name in sorted(seen_known):
         print("KNOWN-FINDING: property=%s %s (%d instance(s) in this run)" % (check.ID, what.get(name, name), seen_known[name]))
 
+    if confirmed:
+        status = 1
     acc.extra["known_finding_instances"] = dict(seen_known)
     path = write_evidence(check, acc, tier, seed, wall, unknown, info)
     err = validate_evidence(path)
